@@ -32,6 +32,9 @@ pub struct DpSchema {
     /// foreign keys may point to a missing row (one extra value)
     #[serde(default)]
     pub dangling: bool,
+    /// users.id is not declared UNIQUE (the data are unique all the same)
+    #[serde(default)]
+    pub id_not_declared_unique: bool,
     pub row_picks: Vec<u16>,
 }
 
@@ -43,10 +46,12 @@ impl DpSchema {
             name: "users".into(),
             cols: vec![
                 ColSpec { name: "id".into(), ty: ColTy::Int(1, nu), nullable: false, unique: true },
+                // (declared uniqueness is dropped in relations() below when id_not_declared_unique)
                 ColSpec { name: "a".into(), ty: self.a.clone(), nullable: false, unique: false },
                 ColSpec { name: "g".into(), ty: ColTy::TextSet(self.g.clone()), nullable: false, unique: false },
             ],
             nrows: self.n_users.max(1),
+            undeclared_unique: if self.id_not_declared_unique { vec!["id".to_string()] } else { vec![] },
         };
         let orders = TableSpec {
             name: "orders".into(),
@@ -59,6 +64,7 @@ impl DpSchema {
                 ColSpec { name: "pk".into(), ty: ColTy::Int(0, self.pk_hi.max(200)), nullable: false, unique: false },
             ],
             nrows: self.n_orders,
+            undeclared_unique: vec![],
         };
         let items = TableSpec {
             name: "items".into(),
@@ -68,6 +74,7 @@ impl DpSchema {
             ],
             // without orders every item would be an orphan
             nrows: if self.n_orders == 0 && !self.dangling { 0 } else { self.n_items },
+            undeclared_unique: vec![],
         };
         let public = TableSpec {
             name: "pub".into(),
@@ -76,6 +83,7 @@ impl DpSchema {
                 ColSpec { name: "v".into(), ty: ColTy::Int(0, 10), nullable: false, unique: false },
             ],
             nrows: self.g.len().min(4) as u8,
+            undeclared_unique: vec![],
         };
         DbSpec { tables: vec![users, orders, items, public], row_picks: self.row_picks.clone() }
     }
@@ -180,7 +188,8 @@ pub fn schema_strategy(max_users: u8, max_orders: u8) -> BoxedStrategy<DpSchema>
             let mut kind = kind;
             kind.sort();
             kind.dedup();
-            DpSchema { n_users, n_orders, n_items, x, x_nullable, a, y, g, kind, pk_hi, pu_variant, hash, dangling, row_picks }
+            let id_not_declared_unique = row_picks.first().map_or(false, |p| p % 3 == 0);
+            DpSchema { n_users, n_orders, n_items, x, x_nullable, a, y, g, kind, pk_hi, pu_variant, hash, dangling, id_not_declared_unique, row_picks }
         })
         .boxed()
 }
